@@ -7,7 +7,7 @@ from symx import core
 def main():
     mod = importlib.import_module("props." + sys.argv[1].lower())
     tier = sys.argv[2]; filt = sys.argv[3] if len(sys.argv) > 3 else ""
-    limit = int(sys.argv[4]) if len(sys.argv) > 4 else None
+    limit = int(sys.argv[4]) if len(sys.argv) > 4 and sys.argv[4].isdigit() else None
     for job in mod.jobs(tier):
         if filt not in job["label"]: continue
         fn = mod.HARNESSES[job["harness"]](dict(job["params"]))
